@@ -127,11 +127,127 @@ func c27GenResult(f *c27Filler) any {
 	return r
 }
 
+// ---- declared maxima of the exchange codec (MaxExchangeBatchItems, maxRecoveryProbeIndexes,
+// maxRecoveryReplacementProposals = 256; MaxExchangeBatchBytes = 4 MiB) ----
+
+func c27ProbeItem(f *c27Filler, id uint64, indexes int) replication.ExchangeItem {
+	key, cid, l, fo := c27Ident(f)
+	p := replication.ProbeRequest{ChannelKey: key, ChannelID: cid, Leader: l, Follower: fo}
+	for j := 0; j < indexes; j++ {
+		p.Indexes = append(p.Indexes, uint64(j)+1)
+	}
+	return replication.ExchangeItem{RequestID: id, Kind: replication.ExchangeProbe, Probe: &p}
+}
+
+// c27SealedN: a proposal of exactly n records at base offset `base`.
+func c27SealedN(f *c27Filler, base uint64, n int) (ch.ProposalManifest, []ch.Record, []ch.EntryIdentity, bool) {
+	records := make([]ch.Record, n)
+	for i := range records {
+		records[i] = ch.Record{ID: uint64(i) + 1, Epoch: 3, FromUID: "u", ServerTimestampMS: 1, Payload: []byte{byte(i)}, SizeBytes: 1}
+	}
+	m := ch.ProposalManifest{Version: ch.ProposalManifestVersion, ChannelEpoch: 3, LeaderTerm: 5, FenceVersion: 7, BaseOffset: base, LastOffset: base + uint64(n)}
+	m.CommandID[0] = 9
+	if base > 0 {
+		m.PreviousTerm, m.PreviousIndex = 4, base
+		m.PreviousDigest[0] = 1
+	}
+	sealed, entries, ok := ch.SealProposalManifest(m, records)
+	return sealed, records, entries, ok
+}
+
+func c27BatchOf(items ...replication.ExchangeItem) replication.ExchangeBatch {
+	return replication.ExchangeBatch{Version: replication.ExchangeVersion, Priority: replication.ExchangePriorityForeground, Items: items}
+}
+
+var c27BatchBounds = []c27Bound{
+	{name: "items", max: 256, build: func(f *c27Filler, n int) any {
+		var items []replication.ExchangeItem
+		for i := 0; i < n; i++ {
+			items = append(items, c27ProbeItem(f, uint64(i)+1, 1))
+		}
+		return c27BatchOf(items...)
+	}},
+	{name: "probe.indexes", max: 256, build: func(f *c27Filler, n int) any { return c27BatchOf(c27ProbeItem(f, 1, n)) }},
+	{name: "replicate.records", max: 256, build: func(f *c27Filler, n int) any {
+		key, cid, l, fo := c27Ident(f)
+		m, recs, _, _ := c27SealedN(f, uint64(f.R.Intn(2))*50, n)
+		return c27BatchOf(replication.ExchangeItem{RequestID: 1, Kind: replication.ExchangeReplicate,
+			Replicate: &replication.ReplicateRequest{ChannelKey: key, ChannelID: cid, Leader: l, Follower: fo, Manifest: m, Records: recs}})
+	}},
+	{name: "fetch.span", max: 256, build: func(f *c27Filler, n int) any { // Through-From+1 = n
+		key, cid, l, fo := c27Ident(f)
+		m, _, entries, _ := c27SealedN(f, 1000, 1)
+		st := replication.ReplicaState{LEO: m.LastOffset, Manifest: m, TailIdentity: entries[0]}
+		return c27BatchOf(replication.ExchangeItem{RequestID: 1, Kind: replication.ExchangeFetch,
+			Fetch: &replication.FetchRequest{ChannelKey: key, ChannelID: cid, Leader: l, Follower: fo, Expected: st, From: 1, Through: uint64(n), MaxBytes: 1 << 20}})
+	}},
+	{name: "frame.bytes", max: replication.MaxExchangeBatchBytes, build: func(f *c27Filler, n int) any {
+		// one probe item whose channel key is sized so that the whole frame is exactly n bytes
+		it := c27ProbeItem(f, 1, 0)
+		size := func(k int) int {
+			it.Probe.ChannelKey = ch.ChannelKey(make([]byte, k))
+			b, err := replication.EncodeExchangeBatch(c27BatchOf(it))
+			if err != nil {
+				return -1
+			}
+			return len(b)
+		}
+		overhead := size(1<<20) - (1 << 20) - 3 // the key's length prefix is a 3-byte uvarint at 1 MiB
+		k := n - overhead - 4                   // and a 4-byte uvarint from 2 MiB up
+		if k < 1<<21 {
+			k = n - overhead - 3
+		}
+		key := make([]byte, k)
+		for i := range key {
+			key[i] = 'k'
+		}
+		it.Probe.ChannelKey = ch.ChannelKey(key)
+		return c27BatchOf(it)
+	}},
+}
+
+var c27ResultBounds = []c27Bound{
+	{name: "items", max: 256, build: func(f *c27Filler, n int) any {
+		r := replication.ExchangeBatchResult{Version: replication.ExchangeVersion}
+		for i := 0; i < n; i++ {
+			r.Items = append(r.Items, replication.ExchangeItemResult{RequestID: uint64(i) + 1})
+		}
+		return r
+	}},
+	{name: "probe.entries", max: 256, build: func(f *c27Filler, n int) any {
+		it := replication.ExchangeItemResult{RequestID: 1}
+		for i := 0; i < n; i++ {
+			it.Probe.Entries = append(it.Probe.Entries, replication.EntryProbe{Index: uint64(i) + 1, Present: i%2 == 0})
+		}
+		return replication.ExchangeBatchResult{Version: replication.ExchangeVersion, Items: []replication.ExchangeItemResult{it}}
+	}},
+	{name: "probe.proof.indexes", max: 256, build: func(f *c27Filler, n int) any {
+		it := replication.ExchangeItemResult{RequestID: 1}
+		for i := 0; i < n; i++ {
+			it.Probe.Proof.Indexes = append(it.Probe.Proof.Indexes, uint64(i)+1)
+		}
+		return replication.ExchangeBatchResult{Version: replication.ExchangeVersion, Items: []replication.ExchangeItemResult{it}}
+	}},
+	{name: "fetch.proposals", max: 256, build: func(f *c27Filler, n int) any {
+		it := replication.ExchangeItemResult{RequestID: 1}
+		for i := 0; i < n; i++ {
+			it.Fetch.Proposals = append(it.Fetch.Proposals, replication.RecoveryProposal{Manifest: ch.ProposalManifest{ChannelEpoch: uint64(i)}})
+		}
+		return replication.ExchangeBatchResult{Version: replication.ExchangeVersion, Items: []replication.ExchangeItemResult{it}}
+	}},
+	{name: "fetch.proposal.records", max: 256, build: func(f *c27Filler, n int) any {
+		it := replication.ExchangeItemResult{RequestID: 1}
+		m, recs, _, _ := c27SealedN(f, 0, n)
+		it.Fetch.Proposals = []replication.RecoveryProposal{{Manifest: m, Records: recs}}
+		return replication.ExchangeBatchResult{Version: replication.ExchangeVersion, Items: []replication.ExchangeItemResult{it}}
+	}},
+}
+
 func init() {
-	c27Reg(&c27Codec{name: "repl.batch", selfDelim: true, canon: true, gen: c27GenBatch,
+	c27Reg(&c27Codec{name: "repl.batch", selfDelim: true, canon: true, gen: c27GenBatch, bounds: c27BatchBounds,
 		enc: func(v any) ([]byte, error) { return replication.EncodeExchangeBatch(v.(replication.ExchangeBatch)) },
 		dec: func(b []byte) (any, error) { return replication.DecodeExchangeBatch(b) }})
-	c27Reg(&c27Codec{name: "repl.result", selfDelim: true, canon: true, gen: c27GenResult,
+	c27Reg(&c27Codec{name: "repl.result", selfDelim: true, canon: true, gen: c27GenResult, bounds: c27ResultBounds,
 		enc: func(v any) ([]byte, error) {
 			return replication.EncodeExchangeBatchResult(v.(replication.ExchangeBatchResult))
 		},
